@@ -892,8 +892,11 @@ func (x *Engine) builtin(fr *Frame, st *State, b *ssa.Builtin, cc *ssa.CallCommo
 				return Val{T: fmt.Sprint(a.Len()), Typ: rt}
 			}
 		case *types.Chan:
-			x.degrade("len of channel")
-			return x.freshVal("chl", rt, st)
+			// arbitrary non-negative value: other goroutines fill and drain the channel
+			x.abstracted("len(channel): arbitrary non-negative value")
+			v := x.freshVal("chl", rt, st)
+			x.assume(st, fmt.Sprintf("(>= %s 0)", v.T))
+			return v
 		}
 	case "append":
 		return x.doAppend(fr, st, args, cc)
